@@ -868,6 +868,10 @@ class ClientSession:
                             headers.popall(hdrs.COOKIE, None)
                             headers.popall(hdrs.PROXY_AUTHORIZATION, None)
 
+                        # A Host header of the caller's names the host of the URL
+                        # that was asked for, not of where a redirect leads
+                        headers.popall(hdrs.HOST, None)
+
                         url = parsed_redirect_url
                         params = {}
                         resp.release()
